@@ -2,11 +2,13 @@
 # offline setup: syntax-check every spec module with SANY; nothing is downloaded or built outside /verif
 cd "$(dirname "$0")" || exit 2
 rc=0
-for f in spec/*.tla; do
+cd spec || exit 2
+for f in *.tla; do
   if ! java -cp /opt/veriftools/tla/tla2tools.jar:/opt/veriftools/tla/CommunityModules-deps.jar tla2sany.SANY "$f" >/tmp/sany.$$ 2>&1; then
     echo "SANY failed on $f"; tail -5 /tmp/sany.$$; rc=1
   fi
 done
 rm -f /tmp/sany.$$
+cd ..
 mkdir -p evidence replay
 exit $rc
